@@ -97,7 +97,10 @@ def corpus():
     """pre-repair failing inputs of finding F8 (Lanczos iterations beyond the dimension of the local problem) -- run first"""
     b = {'between': 'right', 'complete': False, 'kind': 'single', 'model': 'ising', 'prep': 'left', 'repeat': 2, 'scale': 1.0, 'sdtype': 'real'}
     return [dict(b, Dmax=3, L=4, numiter=4, seed=485738843, sweeps=4), dict(b, Dmax=1, L=4, numiter=6, seed=886820026, sweeps=4),
-            dict(b, Dmax=1, L=2, numiter=6, seed=271037078, sweeps=3)]
+            dict(b, Dmax=1, L=2, numiter=6, seed=271037078, sweeps=3),
+            # pre-repair failing input of finding F9 (Hamiltonian times 2^10: rounding noise of the vanishing Lanczos residual passed the absolute test)
+            {'Dmax': 3, 'L': 2, 'between': 'right', 'complete': True, 'hmag': 10, 'kind': 'two', 'model': 'ising', 'numiter': 2, 'prep': 'none',
+             'repeat': 1, 'scale': 1.0, 'sdtype': 'real', 'seed': 510355621, 'sweeps': 3}]
 
 
 def sector_ground_energy(Hd, qd, L, qt):
